@@ -230,6 +230,9 @@ class Ctx:
         for f in assertions:
             s.add(f)
         s.add(neg)
+        from .path import len_lemmas
+        for f in len_lemmas(list(assertions) + [neg]):      # workaround for a z3 unsoundness, see pyvc/path.py
+            s.add(f)
         t0 = time.time()
         try:
             r = s.check()
